@@ -34,6 +34,8 @@ def scenarios(tier):
                 N = 3 if q else 5
                 out.append(dict(name=f"continuous-R{R}-f{f}-N{N}-{'rev' if rev else 'fwd'}", fn="run", params=dict(R=R, N=N, rev=rev, cont=f, mmax=2, names=False), cost=R ** 3 * N * 2))
     out.append(dict(name="names-in-config", fn="run", params=dict(R=2, N=3, rev=False, cont=0, mmax=1, names=True), cost=5))
+    out.append(dict(name="subtick-continuous", fn="subtick", params=dict(mode="continuous"), cost=3))
+    out.append(dict(name="subtick-discrete", fn="subtick", params=dict(mode="discrete"), cost=3))
     out.append(dict(name="typed-disc", fn="run", params=dict(R=2, N=3, rev=False, cont=0, mmax=2, names=False, typed=True), cost=5))
     out.append(dict(name="typed-cont", fn="run", params=dict(R=2, N=3, rev=False, cont=1, mmax=1, names=True, typed=True), cost=5))
     out.append(dict(name="lonlat", fn="run", params=dict(R=2, N=3, rev=False, cont=0, mmax=1, names=False, lonlat=True), cost=5))
@@ -180,8 +182,44 @@ def run(W, p):
     return ("ok", tuple(mc), tuple(mult))
 
 
+def subtick(W, p):
+    """several release times inside one model step: every one of them is released in that step, none is postponed
+    (continuous release with a frequency of dt/2, and a discrete table with two rows inside one step)"""
+    tk, st, rel = W.load("ladim.timekeeper"), W.load("ladim.state"), W.load("ladim.release")
+    N = 3
+    tmp = W.scratch()
+    path = tmp / "release.rls"
+    m0, m1 = W.idx(W.int("mult0", 0, 2)), W.idx(W.int("mult1", 0, 2))
+    x0, x1 = W.real("x0"), W.real("x1")
+    timer = tk.TimeKeeper(start=W.dt(START), stop=W.dt(START + N * DT), dt=DT)
+    S = st.State()
+    cols = ["release_time", "X", "Y", "Z", "mult"]
+    if p["mode"] == "continuous":
+        # file times at steps 0 and 2 (both on the model grid and on the frequency grid), a tick every half step
+        W.table(path, cols, [[W.dt(START), x0, 1, 5, m0], [W.dt(START + 2 * DT), x1, 2, 5, m1]])
+        PR = rel.ParticleReleaser(dict(time=timer, grid=None, state=S), str(path), continuous=True, release_frequency=DT // 2)
+        expect = {0: [(x0, m0), (x0, m0)], 1: [(x0, m0), (x0, m0)], 2: [(x1, m1), (x1, m1)]}
+    else:
+        # two rows inside step 1 (one on the step, one 250 s later), one row at step 2
+        W.table(path, cols, [[W.dt(START + DT), x0, 1, 5, m0], [W.dt(START + DT + 250), x1, 2, 5, m1], [W.dt(START + 2 * DT), x0, 3, 5, 1]])
+        PR = rel.ParticleReleaser(dict(time=timer, grid=None, state=S), str(path))
+        expect = {0: [], 1: [(x0, m0), (x1, m1)], 2: [(x0, 1)]}
+    for s_ in range(N):
+        timer.update()
+        n0 = len(S)
+        PR.update()
+        exp = [x for (x, m) in expect[s_] for _ in range(m)]
+        got = W.tolist(S.X)[n0:]
+        W.prove(len(got) == len(exp), "count", dict(step=s_, got=len(got), expected=len(exp), mode=p["mode"], mult=[m0, m1]))
+        if len(got) == len(exp):
+            W.prove(W.all([W.eq(a, b) for a, b in zip(got, exp)]), "values", dict(step=s_, mode=p["mode"]))
+    return (p["mode"], m0, m1)
+
+
 def signature(v, scen):
     p = scen["params"]
+    if "mode" in p:
+        return f"{v['clause'] if v['kind'] != 'crash' else 'crash:' + str(v['info'].get('exception'))}:subtick:{p['mode']}"
     if v["kind"] == "crash":
         return f"crash:{v['info'].get('exception')}:{'continuous' if p['cont'] else 'discrete'}"
     return f"{v['clause']}:{'rev' if p['rev'] else 'fwd'}:{'continuous' if p['cont'] else 'discrete'}"
